@@ -94,6 +94,22 @@ theorem NPD_reject_kinds (t : State) (buf : Bytes) :
     obtain ⟨cc, fl, sq, ds, mc, ts, hh⟩ := NPD_hdr buf h20
     simp [unpack, hh, hl]
 
+/-- review witnesses.  Header: version 1, hdrlen 5 words, data type 0xFF (plain segments), length word `w`, cfgcnt 1,
+    sequence 2, source 3, multicast 235.0.0.1, timestamp 9; one segment of declared length 12 with 4 payload bytes. -/
+private def npdHdrW (w : UInt8) : Bytes := [0x15, 0xFF, 0, w, 1, 0, 0, 2, 0,0,0,3, 235,0,0,1, 0,0,0,9]
+/-- 8 words declared, 32 bytes present: accepted, the segment payload returned whole -/
+example : (unpack fresh (npdHdrW 8 ++ [0,0,0,1, 0,12, 0,0, 1,2,3,4])).2 = .ok () := by rfl
+example : (unpack fresh (npdHdrW 8 ++ [0,0,0,1, 0,12, 0,0, 1,2,3,4])).1.segments.map (·.payload) = [[1,2,3,4]] := by rfl
+/-- declared 9 / 7 words on 32 bytes; declared 8 words on 33 bytes; 19-byte header: all rejected -/
+example : (unpack fresh (npdHdrW 9 ++ [0,0,0,1, 0,12, 0,0, 1,2,3,4])).2 = .error .generic := by rfl
+example : (unpack fresh (npdHdrW 7 ++ [0,0,0,1, 0,12, 0,0, 1,2,3,4])).2 = .error .generic := by rfl
+example : (unpack fresh (npdHdrW 8 ++ [0,0,0,1, 0,12, 0,0, 1,2,3,4,5])).2 = .error .generic := by rfl
+example : (unpack fresh ((npdHdrW 8).take 19)).2 = .error .struct := by rfl
+/-- the third conjunct of `NPD_accepts_iff` is not idle: total length right (9 words, 36 bytes) but the second
+    segment header incomplete (4 stray bytes) → rejected -/
+example : (unpack fresh (npdHdrW 9 ++ [0,0,0,1, 0,12, 0,0, 1,2,3,4] ++ [0,0,0,1])).2 = .error .generic ∧
+    segmentsOk (npdHdrW 9 ++ [0,0,0,1, 0,12, 0,0, 1,2,3,4] ++ [0,0,0,1]) = false := ⟨rfl, rfl⟩
+
 /-- the length a segment header declares: big-endian 16 bits at bytes 4..5 -/
 def declaredSegLen (buf : Bytes) : Nat := beNat ((buf.drop 4).take 2)
 
@@ -199,5 +215,11 @@ example : ¬ SegWalk .rs232 [0, 0, 0, 1, 0, 11, 0, 0, 0, 3, 0xAA, 0xFF] := by
   rcases h with h | ⟨h, _⟩
   · cases h
   · revert h; decide
+
+/-- joint witness for `NPDSegment_exact`: declared 12, 12 bytes present -/
+example : (Seg.unpackBase (Seg.fresh .base) [0,0,0,1, 0,12, 0,0, 1,2,3,4]).2 = .ok [] ∧
+    (Seg.unpackBase (Seg.fresh .base) [0,0,0,1, 0,12, 0,0, 1,2,3,4]).1.payload = [1,2,3,4] ∧
+    (Seg.unpackBase (Seg.fresh .base) [0,0,0,1, 0,12, 0,0, 1,2,3,4]).1.segmentlen = 12 := ⟨rfl, rfl, rfl⟩
+example : (Seg.unpackBase (Seg.fresh .base) [0,0,0,1, 0,12, 0]).2 = .error .struct := by rfl
 
 end Acra.Props.C09
